@@ -127,7 +127,7 @@ def main(tier, seed, replay=None):
         kb = sizes[i % len(sizes)] if (not q or i % 11 < 9) else 1
         cases.append(("api", seed, i, kb))
     for i in range(24 if q else 400):
-        cases.append(("cli", seed, i, [1, 2, 4, 8, 16, 64][i % 6]))
+        cases.append(("cli", seed, i, [1, 2, 4, 8, 16, 64, 61, 33][i % 8]))
     for r in common.run_sharded(run_case, cases):
         run.feed(r)
     run.assumptions = [
